@@ -6,7 +6,6 @@ use crate::gen::opts::OptDomain;
 use crate::oracle::ansi::clean_ansi;
 use crate::oracle::place::place;
 use crate::oracle::width::{ref_width, visible_nonzero};
-use crate::oracle::words::ref_split_points;
 use crate::rng::Rng;
 use crate::run::{Obs, Prop, RunCfg, Verdict, Worker};
 
@@ -42,11 +41,13 @@ fn gen(r: &mut Rng, _cfg: &RunCfg) -> Case {
 fn boundaries(para: &str, o: &OptSpec) -> Vec<usize> {
     let mut out = Vec::new();
     let mut p = 0usize;
+    let splitter = o.split_build();
     for w in o.sep_build().find_words(para) {
         if p > 0 {
             out.push(p);
         }
-        for sp in ref_split_points(o.split, w.word) {
+        // the configured splitter's own split points (whether they follow the hyphen rule is C12's business)
+        for sp in splitter.split_points(w.word) {
             out.push(p + sp);
         }
         p += w.word.len() + w.whitespace.len();
